@@ -1,2 +1,3 @@
 -- Root of the library: every property module (append one line per property).
 import Dasp.Props.C01
+import Dasp.Props.C06
